@@ -582,7 +582,7 @@ class Rule(MethodWIGM):
 
                 surplus = high_candidate.vote - E.quota
                 for b in (b for b in E.ballots if b.topRank == high_candidate.cid):
-                    b.weight = (b.weight * surplus) / high_candidate.vote
+                    b.weight = b.weight * (surplus / high_candidate.vote)
                     transfer(b)
                 high_candidate.vote = E.quota
                 E.surplus = sum([c.surplus for c in C], V0)
